@@ -9,4 +9,5 @@ CONSTANTS
   Small = FALSE
   Avoid = TRUE
   SimK = 1
+  AccW = TRUE
   Acts = {"xslice", "slice", "ldel", "lins", "lset", "inplace"}
